@@ -117,4 +117,40 @@ def main(args):
     print(f"selftest Pipeline: unchanged workflow rejected steps "
           f"{[s[2] for s in good_fail]}, corrupted step 3 -> rejected steps "
           f"{bad_fail} (state continuity): {'ok' if ok2 else 'FAILED'}")
-    return 0 if ok and ok2 else 2
+    # registry: histories of spec/Registry.tla replayed into the real class;
+    # one predicted field of some histories corrupted -> exactly those must be
+    # rejected by the replay
+    import subprocess
+    out = tlc.run_tlc("Registry", cfg="Registry.cfg", workers=8)
+    lines = [json.loads(ln)[4:] for ln in out["stdout"].splitlines()
+             if ln.startswith('"REG ')][:3000]
+    hist = [json.loads(x) for x in lines]
+    n_corrupt = 0
+    for k, h in enumerate(hist):
+        if k % 10:
+            continue
+        e = h["log"][-1]
+        if k % 20 == 0:
+            e["cnt"] += 1                   # a wrong counter
+        elif e["op"][0] == "g":
+            e["ret"][0][1] += 1             # a wrong generic name
+        else:
+            e["nsym"] += 1                  # a wrong symbol count
+        n_corrupt += 1
+    fd, path = tempfile.mkstemp(prefix="reg_", suffix=".jsonl", dir=tlc.WORK)
+    with os.fdopen(fd, "w") as fh:
+        fh.write("\n".join(json.dumps(h) for h in hist) + "\n")
+    try:
+        pr = subprocess.run(["/venv/bin/python", "-m",
+                             "harness.registry_replay", path],
+                            capture_output=True, text=True, timeout=600,
+                            cwd=tlc.VERIF)
+    finally:
+        os.unlink(path)
+    res = [ln for ln in pr.stdout.splitlines() if ln.startswith("REGRESULT ")]
+    r = json.loads(res[0][len("REGRESULT "):]) if res else {"n": 0, "n_bad": -1}
+    ok3 = r["n"] == len(hist) and r["n_bad"] == n_corrupt
+    print(f"selftest Registry: {r['n']} spec histories replayed into "
+          f"adcgen.indices.Indices, {n_corrupt} with one corrupted predicted "
+          f"field -> {r['n_bad']} rejected: {'ok' if ok3 else 'FAILED'}")
+    return 0 if ok and ok2 and ok3 else 2
